@@ -142,6 +142,25 @@ Theorem C06_contract_satisfiable_everywhere :
 Proof. exact wf_ev_exists. Qed.
 Print Assumptions C06_contract_satisfiable_everywhere.
 
+(* re-batching: when the region of a task's batch is split in the request's window the batch is
+   re-grouped into sub-batches; processing ALL of them (in any grouping that covers the task's keys)
+   releases exactly what the whole task releases — so [ERun] stands for any such re-batched execution *)
+Theorem C06_rebatched_task_equals_whole :
+  forall t parts s,
+  (forall k, In k (task_keys t) -> exists p, In p parts /\ In k p) ->
+  run_parts t parts s = run_task t s.
+Proof. exact rebatched_task_equals_whole. Qed.
+Print Assumptions C06_rebatched_task_equals_whole.
+
+(* ... and what goes wrong when only the first sub-batch of a re-split batch is processed (seeded change
+   C06-3: the sequential branch of doActionOnBatches handling batches[0] only): the secondaries of a
+   committed transaction keep their prewrite locks *)
+Example C06_first_sub_batch_only_leaves_locks :
+  let st0 := [(1, Prew); (2, Prew); (3, Prew); (4, Prew)] in
+  run_parts (TCommitSec [1; 2; 3; 4]) [[1]; [2]; [3; 4]] st0 = [] /\
+  run_parts (TCommitSec [1; 2; 3; 4]) [[1]] st0 = [(2, Prew); (3, Prew); (4, Prew)].
+Proof. vm_compute. auto. Qed.
+
 (* ---- regression replays of the fixed findings F19 / F19b ---- *)
 Definition ok_lock (ks : list key) : lock_out := mkLO false false ks [] 0 None.
 
